@@ -387,6 +387,7 @@ type SpecFunc struct {
 	Ret       string
 	Body      Expr // nil = uninterpreted (abstract)
 	Recursive bool
+	Opaque    bool
 	File      string
 }
 
@@ -699,6 +700,10 @@ func ParseContractFile(path string, pkgPath string) (*ContractFile, error) {
 			ps, _ := splitParams(rest[i+1 : j])
 			after := strings.TrimSpace(rest[j+1:])
 			sf := &SpecFunc{Name: strings.TrimSpace(rest[:i]), Params: ps, File: path}
+			if strings.HasPrefix(sf.Name, "opaque ") {
+				sf.Name = strings.TrimSpace(strings.TrimPrefix(sf.Name, "opaque "))
+				sf.Opaque = true
+			}
 			if k := strings.Index(after, "="); k >= 0 && !strings.HasPrefix(after[k:], "==") {
 				sf.Ret = strings.TrimSpace(after[:k])
 				b, err := ParseExpr(after[k+1:])
